@@ -19,6 +19,7 @@
 #include <fcntl.h>
 #include <memory>
 #include <optional>
+#include <sys/resource.h>
 #include <sys/wait.h>
 #include <unistd.h>
 
@@ -446,7 +447,7 @@ bool deserialize(const std::string& b, Outcome& o) {
     return good;
 }
 
-enum class Child { Returned, Crashed, Hang, Broken };
+enum class Child { Returned, Crashed, Hang, Broken, Starved };
 // Runs the parser on an exact-size copy in a forked child.  `how` describes an abnormal end.
 Child call_forked(const std::string& doc, Outcome& out, std::string& how) {
     int fds[2];
@@ -463,7 +464,12 @@ Child call_forked(const std::string& doc, Outcome& out, std::string& how) {
         int dn = open("/dev/null", O_WRONLY);
         if (dn >= 0) { dup2(dn, 2); dup2(dn, 1); }
         std::signal(SIGALRM, SIG_DFL);
-        alarm(40);
+        std::signal(SIGXCPU, SIG_DFL);
+        {   // the hang verdict is about CPU time the parser burns, never about wall-clock time on a loaded machine
+            struct rlimit rl { 20, 25 };
+            setrlimit(RLIMIT_CPU, &rl);
+        }
+        alarm(900);
         Outcome o = call_exact(doc);
         std::string b = serialize(o);
         const char* p = b.data();
@@ -485,7 +491,8 @@ Child call_forked(const std::string& doc, Outcome& out, std::string& how) {
     while (waitpid(pid, &st, 0) < 0 && errno == EINTR) {}
     if (WIFSIGNALED(st)) {
         int sig = WTERMSIG(st);
-        if (sig == SIGALRM) { how = "no return within 40 s"; return Child::Hang; }
+        if (sig == SIGXCPU || sig == SIGKILL) { how = "no return after 20 s of CPU time"; return Child::Hang; }
+        if (sig == SIGALRM) { how = "starved"; out = Outcome{}; return Child::Starved; }
         how = std::string("killed by signal ") + std::to_string(sig) + (sig == SIGSEGV ? " (SIGSEGV)" : sig == SIGBUS ? " (SIGBUS)" : sig == SIGABRT ? " (SIGABRT)" : "");
         return Child::Crashed;
     }
@@ -882,6 +889,7 @@ std::optional<Outcome> run_total(Ctx& c, const std::string& doc, std::size_t dep
         std::string how;
         Child st = call_forked(doc, o, how);
         if (st == Child::Broken) c.fail("C38:harness-error", "forked execution failed: " + how);
+        if (st == Child::Starved) { c.label("child_starved_inconclusive"); return std::nullopt; }
         if (st == Child::Hang) c.fail("C38:hang", "parsing a " + std::to_string(doc.size()) + "-byte document (nesting <= " + std::to_string(brackets) + ") did not return: " + how);
         if (st == Child::Crashed)
             c.fail(kSigRecursion, "parsing a " + std::to_string(doc.size()) + "-byte document with nesting depth " + std::to_string(brackets) +
@@ -1212,6 +1220,7 @@ std::string run_once(Ctx& c) {
             std::string how;
             Child st = call_forked(nest(kind, depth, true), o, how);
             if (st == Child::Broken) c.fail("C38:harness-error", "forked execution failed: " + how);
+            if (st == Child::Starved) continue;
             if (st == Child::Hang) c.fail("C38:hang", "nesting depth " + std::to_string(depth) + ": " + how);
             if (st == Child::Crashed) { first_crash = depth; crash_kind = kind; crash_how = how; }
         }
